@@ -24,7 +24,7 @@ COMPONENTS_STUB = ['convolutional front-end (stock one downloads VGG weights) ->
                    'trained weights -> seeded random weights with calibrated end-of-sentence bias',
                    'torch.empty inside pero_ocr.ocr_engine.transformer -> poisoned allocator',
                    'TransformerEngineLineOCR.__init__ (weight loading) is bypassed']
-ASSUMPTIONS = ['score agreement is asserted to 1e-3 absolute on logits (observed ~1e-5)',
+ASSUMPTIONS = ['score agreement is asserted to max(1e-3, 1.5e-4 * largest score magnitude of the batch); the largest observed difference is reported in the evidence',
                'symbol-level comparisons are waived for a batch with an arg-max margin below 4e-3 (near tie); score comparisons never are',
                'CPU float32, single-threaded torch', 'sampling, not proof']
 
@@ -38,3 +38,12 @@ def warmup():
 gen_plan = trworld.gen_plan
 execute = trworld.execute
 shrink_candidates = trworld.shrink_candidates
+
+
+def evidence_extra(records):
+    worst = [r['res']['info'].get('max_diff_over_tol', 0.0) for r in records.values() if 'res' in r]
+    worst.sort()
+    n = len(worst)
+    return {'score_agreement': {'tolerance': 'max(1e-3, 1.5e-4 * max|score| of the batch)',
+                                'largest_observed_difference_as_fraction_of_tolerance': worst[-1] if worst else None,
+                                'p99': worst[int(n * 0.99)] if n else None, 'median': worst[n // 2] if n else None}}
